@@ -89,6 +89,15 @@ func cmdMesh(args []string) {
 			res.Inconclusive = append(res.Inconclusive, "fast-restart scenario: "+fast.inconcl)
 		}
 	}()
+	// also alone (process-wide gate): a link is lost and comes back while the old session's teardown sits between the
+	// two critical sections of removeConnection
+	tear := &scT{}
+	tear.sc, tear.final, tear.names, tear.inconcl = runMeshTeardownGateScenario(*scenarios + 2)
+	defer func() {
+		if tear.inconcl != "" {
+			res.Inconclusive = append(res.Inconclusive, "teardown-reconnect scenario: "+tear.inconcl)
+		}
+	}()
 	sem := make(chan struct{}, *par)
 	var wg sync.WaitGroup
 	for i := 0; i < *scenarios; i++ {
@@ -118,6 +127,9 @@ func cmdMesh(args []string) {
 	}
 	if fast.inconcl == "" {
 		scs = append(scs, fast)
+	}
+	if tear.inconcl == "" {
+		scs = append(scs, tear)
 	}
 	for _, s := range scs {
 		if s.inconcl != "" {
@@ -574,6 +586,151 @@ func runMeshFastRestartScenario(idx int) (sc meshScenario, final *meshFinal, nam
 		final.Conns[id] = map[string]float64{}
 		for _, cn := range st.Connections {
 			final.Conns[id][cn.NodeID] = cn.Cost
+		}
+	}
+
+	return sc, final, names, ""
+}
+
+// runMeshTeardownGateScenario: line tA - tB - tC. Three times the link tA-tB is cut and comes back while the teardown of
+// the old session (of whichever end reaches it first) is parked between the two critical sections of removeConnection
+// (gate remove_between_sections): the connection entry is gone, the adjacency edge not yet. The returning peer is
+// admitted in that window. Afterwards a node tD joins at tB; every node must converge on the real topology.
+func runMeshTeardownGateScenario(idx int) (sc meshScenario, final *meshFinal, names map[string]bool, inconcl string) {
+	names = map[string]bool{}
+	sc.Index = idx
+	period := 300 * time.Millisecond
+	m := mesh.New(mesh.Opts{RouteUpdate: period}, 4242)
+	defer m.StopAll()
+	a, b, c, d := "tA", "tB", "tC", "tD"
+	sc.Nodes = []string{a, b, c, d}
+	for _, id := range []string{a, b, c} {
+		names[m.Start(id).N.VerifName()] = true
+	}
+	if _, err := m.Connect(a, b, 1, 1); err != nil {
+		return sc, nil, names, err.Error()
+	}
+	if _, err := m.Connect(b, c, 1, 1); err != nil {
+		return sc, nil, names, err.Error()
+	}
+	sc.Links = append(sc.Links, [3]any{a, b, 1.0}, [3]any{b, c, 1.0})
+	// Status() of a node whose tables are locked for good never returns: ask with a time limit
+	looks := func() bool {
+		ch := make(chan bool, 1)
+		go func() { ch <- m.LooksConverged() }()
+		select {
+		case v := <-ch:
+			return v
+		case <-time.After(5 * time.Second):
+			return false
+		}
+	}
+	waitConv := func(limit time.Duration) bool {
+		start := time.Now()
+		streak := 0
+		for time.Since(start) < limit {
+			if looks() {
+				streak++
+				if streak >= 3 {
+					return true
+				}
+			} else {
+				streak = 0
+			}
+			time.Sleep(period / 4)
+		}
+
+		return false
+	}
+	if !waitConv(20 * time.Second) {
+		return sc, nil, names, "initial line did not converge"
+	}
+	connected := func(x, y string) bool {
+		ch := make(chan bool, 1)
+		go func() {
+			for _, cn := range m.Nodes[x].N.Status().Connections {
+				if cn.NodeID == y {
+					ch <- true
+
+					return
+				}
+			}
+			ch <- false
+		}()
+		select {
+		case v := <-ch:
+			return v
+		case <-time.After(3 * time.Second):
+			return false
+		}
+	}
+	for k := 0; k < 3; k++ {
+		l := m.FindLink(a, b)
+		if l == nil {
+			return sc, nil, names, "no live tA-tB link"
+		}
+		hit, release := verifhook.HoldGate("remove_between_sections")
+		m.CutLink(l)
+		sc.Events = append(sc.Events, meshEvent{Kind: "cut", A: a, B: b})
+		select {
+		case <-hit:
+		case <-time.After(20 * time.Second):
+			release()
+
+			return sc, nil, names, "gate remove_between_sections not reached"
+		}
+		// the other end's teardown is not parked: let it finish, then bring the link back
+		time.Sleep(100 * time.Millisecond)
+		if _, err := m.Connect(a, b, 1, 1); err != nil {
+			release()
+
+			return sc, nil, names, err.Error()
+		}
+		sc.Events = append(sc.Events, meshEvent{Kind: "heal-while-teardown-parked", A: a, B: b, Cost: 1})
+		dl := time.Now().Add(10 * time.Second)
+		for !(connected(a, b) && connected(b, a)) && time.Now().Before(dl) {
+			time.Sleep(5 * time.Millisecond)
+		}
+		release()
+		time.Sleep(200 * time.Millisecond)
+	}
+	names[m.Start(d).N.VerifName()] = true
+	if _, err := m.Connect(b, d, 1, 1); err == nil {
+		sc.Events = append(sc.Events, meshEvent{Kind: "heal", A: b, B: d, Cost: 1})
+	}
+	late := !waitConv(20 * period)
+	if late {
+		waitConv(100 * period)
+	}
+	final = &meshFinal{Ev: "final", Sc: idx, Late: late, Real: m.RealGraph(), Tables: map[string]map[string]string{},
+		Costs: map[string]map[string]float64{}, Conns: map[string]map[string]float64{}, Tag: "teardown-reconnect"}
+	type snap struct {
+		table map[string]string
+		conns map[string]float64
+		costs map[string]float64
+	}
+	for _, id := range m.SortedIDs() {
+		nd := m.Nodes[id]
+		ch := make(chan snap, 1)
+		go func() {
+			st := nd.N.Status()
+			sn := snap{st.RoutingTable, map[string]float64{}, map[string]float64{}}
+			for dst := range st.RoutingTable {
+				if cst, err := nd.N.PathCost(dst); err == nil {
+					sn.costs[dst] = cst
+				}
+			}
+			for _, cn := range st.Connections {
+				sn.conns[cn.NodeID] = cn.Cost
+			}
+			ch <- sn
+		}()
+		select {
+		case sn := <-ch:
+			final.Tables[id], final.Costs[id], final.Conns[id] = sn.table, sn.costs, sn.conns
+		case <-time.After(10 * time.Second):
+			// Status() itself does not return: the node's tables are locked for good
+			final.Tables[id], final.Costs[id], final.Conns[id] = map[string]string{}, map[string]float64{}, map[string]float64{}
 		}
 	}
 
